@@ -6,6 +6,7 @@ import (
 	"strconv"
 
 	"github.com/ipfs/go-libdht/kad/key/bit256"
+	"github.com/ipfs/go-libdht/kad/key/bitstr"
 	"github.com/libp2p/go-libp2p/core/peer"
 	mh "github.com/multiformats/go-multihash"
 )
@@ -110,3 +111,70 @@ func VfRegionsAllocate() {
 }
 
 var _ = vfRegister("VfRegionsAllocate", VfRegionsAllocate)
+
+// VfAssignFallback (C18): AssignKeysToRegions with regions that do not cover the
+// whole keyspace: every key ends up in exactly one region - the one whose prefix
+// it matches, otherwise one sharing the longest common prefix with it.
+func VfAssignFallback() {
+	vfHashBits(vfParam("W"))
+	sets := [][]string{{"000", "11"}, {"11", "000"}, {"01", "100", "101"}, {"0", "10"}, {"001", "01", "1"}, {"111", "0"}}
+	set := sets[vfChoose("regions", len(sets))]
+	regions := make([]Region, len(set))
+	for i, p := range set {
+		regions[i] = Region{Prefix: bitstr.Key(p)}
+	}
+	m := 1 + vfChoose("nKeys", vfParam("M"))
+	keys := make([]mh.Multihash, m)
+	for i := range keys {
+		keys[i] = mh.Multihash(vfHashInput("key"+strconv.Itoa(i), []byte{0x12, 0x20}, 32))
+	}
+	regions = AssignKeysToRegions(regions, keys)
+	order := bit256.ZeroKey()
+	for _, h := range keys {
+		k := MhToBit256(h)
+		in := -1
+		n := 0
+		for ri, rg := range regions {
+			for _, x := range AllValues(rg.Keys, order) {
+				if string(x) == string(h) {
+					n++
+					in = ri
+				}
+			}
+		}
+		vfAssert(n == 1, "assign/every-key-in-exactly-one-region")
+		if in < 0 {
+			continue
+		}
+		// common prefix length of the key with each region prefix
+		cpl := func(p string) int {
+			c := 0
+			for i := 0; i < len(p); i++ {
+				if byte('0'+k.Bit(i)) != p[i] {
+					break
+				}
+				c++
+			}
+			return c
+		}
+		matched := false
+		best := -1
+		for _, p := range set {
+			c := cpl(p)
+			if c == len(p) {
+				matched = true
+			}
+			if c > best {
+				best = c
+			}
+		}
+		if matched {
+			vfAssert(cpl(set[in]) == len(set[in]), "assign/a-key-goes-to-the-region-whose-prefix-it-matches")
+		} else {
+			vfAssert(cpl(set[in]) == best, "assign/an-uncovered-key-goes-to-a-region-sharing-the-longest-prefix")
+		}
+	}
+	vfReach("assign/end")
+}
+
+var _ = vfRegister("VfAssignFallback", VfAssignFallback)
